@@ -364,6 +364,9 @@ def pay_strategies(hashed, tier):
         digits_mb=digs(0, {0: {"d": -1, "sig": "pairA"}, 5: {"d": 0, "sig": "pairB"}}))
     # pay token
     add("pay token signed by another key", token="otherkey")
+    add("tampered pay token: sigma1 a small-order curve point outside G1, sigma2 the identity, around an inflated old balance",
+        token="smallorder", hpt=v(3, "plus1"), hst=v(3, "plus1"), hcl=v(3, "plus1"))
+    add("tampered pay token: sigma1 a small-order curve point outside G1, around the real old state", token="smallorder")
     add("all-identity blinded pay token (chosen randomness) around an unsigned old state", token="identity",
         hpt=v(3, "val:1000000"), hst=v(3, "val:999993"), hcl=v(3, "val:999993"))
     add("all-identity blinded pay token (chosen randomness) around the real old state", token="identity")
